@@ -153,6 +153,16 @@ def continuation_histories(ctx, rebound, gen, rng):
         fx["sim"]["rand_seed"] = 1877887275
         fx.update(collision="direct", collision_resolve="merge", k=k)
         sweep.append(fx)
+    # directed probe of the recorded open finding continue:tree-rebuilt (exact recipe of known_findings.json): run on every tier
+    T = [(1.0, 0.0, 0.0, 0.0, 0.0, 0.0, 0.0, 0.001),
+         (0.00070801599340749, 1.0, 0.0, 0.0, 0.2698379299339455, 1.0, 0.0, 0.0051380773852095305),
+         (0.0009404479928268736, 1.0216662272996382, 0.0004853672736398278, 0.0, -0.2698379299339455, 1.0, 0.0, 0.0051380773852095305),
+         (0.0008358435509438283, -1.7, 0.1, 0.02, 0.0, -0.7669649888473704, 0.0, 0.002)]
+    tr = gen._base(rng, "leapfrog", "fixed/linetree-merge-residual/k=2",
+                   particles=[dict(zip(("m", "x", "y", "z", "vx", "vy", "vz", "r"), q)) for q in T], dt=0.01)
+    tr["sim"]["rand_seed"] = 490150681
+    tr.update(collision="linetree", collision_resolve="merge", box=[10.0, 1, 1, 1], k=2)
+    sweep.append(tr)
     return sweep
 
 
